@@ -233,6 +233,11 @@ func c26GenWith(zero bool) func(t *rapid.T) c26Case {
 // shared pieces ------------------------------------------------------------------------------
 
 func c26Setup(c c26Case) (*account.VerifUtxoKeeper, map[bc.Hash]int) {
+	uk, byID, _ := c26SetupDB(c)
+	return uk, byID
+}
+
+func c26SetupDB(c c26Case) (*account.VerifUtxoKeeper, map[bc.Hash]int, dbm.DB) {
 	db := dbm.NewMemDB()
 	uk := account.VerifNewUtxoKeeper(func() uint64 { return c26Height }, db)
 	byID := map[bc.Hash]int{}
@@ -256,7 +261,7 @@ func c26Setup(c c26Case) (*account.VerifUtxoKeeper, map[bc.Hash]int) {
 		}
 	}
 	uk.AddUnconfirmedUtxo(unconfirmed)
-	return uk, byID
+	return uk, byID, db
 }
 
 func c26ErrName(err error) string {
@@ -379,7 +384,8 @@ func c26ExecSeq(c c26Case, x *pbt.Ctx) error {
 	if !c26Valid(c) {
 		return nil
 	}
-	uk, byID := c26Setup(c)
+	c.Utxos = append([]c26Utxo(nil), c.Utxos...) // "confirm"/"pool" change Where
+	uk, byID, db := c26SetupDB(c)
 	held := map[int]uint64{} // model: output index -> reservation id
 	var made []*c26Made
 	hasDup, sawFailure := false, false
@@ -519,6 +525,39 @@ func c26ExecSeq(c c26Case, x *pbt.Ctx) error {
 				x.Class("cancel-unknown")
 			}
 			uk.Cancel(id)
+		case "confirm":
+			// what the wallet does when a pooled transaction is confirmed: the output is written to the
+			// wallet database (attachUtxos) and leaves the unconfirmed set (RemoveUnconfirmedTx)
+			i := op.U % len(c.Utxos)
+			u := &c.Utxos[i]
+			if u.Contract {
+				return nil
+			}
+			if u.Where == 1 {
+				data, err := json.Marshal(u.real(i))
+				if err != nil {
+					panic("HARNESS: " + err.Error())
+				}
+				db.Set(account.StandardUTXOKey(c26OutputID(i)), data)
+			}
+			if u.Where != 0 {
+				x.Class("confirm-unconfirmed-output")
+				if _, isHeld := held[i]; isHeld {
+					x.Class("confirm-held-output")
+				}
+			}
+			id := c26OutputID(i)
+			uk.RemoveUnconfirmedUtxo([]*bc.Hash{&id})
+			u.Where = 0
+		case "pool":
+			// a confirmed output shows up in the unconfirmed set too (its transaction is re-announced)
+			i := op.U % len(c.Utxos)
+			u := &c.Utxos[i]
+			if u.Contract || u.Where != 0 {
+				return nil
+			}
+			uk.AddUnconfirmedUtxo([]*account.UTXO{u.real(i)})
+			u.Where = 2
 		case "expire":
 			n := 0
 			for _, m := range made {
@@ -808,12 +847,25 @@ func c26ExecConc(c c26Case, x *pbt.Ctx) error {
 	return nil
 }
 
+// c26GenDynamic: the sequential history with the wallet's changes of the output set in between.
+func c26GenDynamic(t *rapid.T) c26Case {
+	c := c26GenWith(false)(t)
+	for k := rapid.IntRange(1, 4).Draw(t, "ndyn"); k > 0; k-- {
+		op := c26Op{Kind: rapid.SampledFrom([]string{"confirm", "confirm", "pool"}).Draw(t, "dynkind"), U: rapid.IntRange(0, 11).Draw(t, "dynu")}
+		at := rapid.IntRange(0, len(c.Ops)).Draw(t, "dynat")
+		c.Ops = append(c.Ops[:at], append([]c26Op{op}, c.Ops[at:]...)...)
+	}
+	return c
+}
+
 func TestC26(t *testing.T) {
 	rule := "1..12 outputs over 2 accounts x 2 assets x {no vote, a vote key} (skewed to one class), amounts 1..100 or 2^40..2^57, valid heights {0,99,100,101,200} around the current height 100, each confirmed / unconfirmed / both, a few contract outputs; 1..14 ops Reserve (amount near the total / mature total / fractions of it / 1..120, +-2) / ReserveParticular (also unknown hash) / Cancel / expire(t); non-trivial = the set has a confirmed+unconfirmed duplicate or some call failed; distinct by case"
 	pbt.Run(t, "C26", rule+"; sequential: after every op the keeper's live reservations and reserved index are compared with a set model, every result is judged (see the source for the error precedence)",
 		pbt.Options{Sub: "sequential", Checks: pbt.Per(12000, 900000)}, c26GenWith(false), c26ExecSeq)
 	pbt.Run(t, "C26", rule+"; concurrent: the ops are dealt round-robin to 4 goroutines (a cancel targets one of the goroutine's own reservations); per-result validity, state-independent error rules, final no-overlap/index consistency, and any two reservations sharing an output must be separable by a release (logical-clock intervals); built with -race by the driver",
 		pbt.Options{Sub: "concurrent", Checks: pbt.Per(4000, 300000)}, c26GenWith(false), c26ExecConc)
+	pbt.Run(t, "C26", rule+"; dynamic: the sequential history with 1-4 changes of the output set as the wallet makes them (an unconfirmed output is confirmed: written to the wallet database and taken out of the unconfirmed set; a confirmed output appears in the unconfirmed set too), same judgement after every op",
+		pbt.Options{Sub: "dynamic", Checks: pbt.Per(6000, 450000), MinClass: map[string]int{"confirm-held-output": 50}}, c26GenDynamic, c26ExecSeq)
 	// Reserve(amount 0) is outside the domain: both callers (spend and veto actions) reject a zero
 	// amount before they reach the keeper (the veto action since the "fix: veto action rejects a
 	// zero amount" commit; before it a zero-amount veto panicked in the UTXO selection).
